@@ -300,6 +300,20 @@ def pred_c03(ops, impl):
     for op in ops:
         for m in re.finditer(r"\(sub (\d+) (always|error|success|never) ", op):
             modes.setdefault(int(m.group(1)), set()).add(m.group(2))
+    # the payload delivered with a reply is the sub-message's payload (= its reply script): compare script hashes
+    payload = {}
+    for op in ops:
+        if op.split(" ", 1)[0] in TX_OPS:
+            for sc in scripts_of_op(parse_sx(op) or []):
+                for a in sc:
+                    if isinstance(a, list) and len(a) >= 5 and a[0] == "sub" and a[1].isdigit():
+                        payload.setdefault(int(a[1]), set()).add(fnv(print_sx(a[3])))
+    for n, out in enumerate(impl):
+        if out.startswith("trace["):
+            for e in out[6:-1].split(" || "):
+                m = re.search(r" reply:(\d+):(?:ok|err)[^|]*#([0-9a-f]{8})\|", e + "|")
+                if m and len(payload.get(int(m.group(1)), ())) == 1 and m.group(2) not in payload[int(m.group(1))]:
+                    return "reply for sub-message %s was delivered a payload different from the one the sub-message carried (trace of op %d)" % (m.group(1), n)
     seen = {}
     app = "1"
     for n, (op, out) in enumerate(zip(ops, impl)):
@@ -461,7 +475,7 @@ def pred_c11(ops, impl):
         if t[0] == "app":
             app = t[1]
         cur = ids.setdefault(app, set())
-        if t[0] in ("store", "store-as", "dup", "store-id"):
+        if t[0] in ("store", "store-w", "store-as", "dup", "store-id"):
             if out.startswith("id "):
                 i = int(out.split()[1])
                 if i in cur:
@@ -495,7 +509,7 @@ def pred_c11(ops, impl):
         if t[0] == "app":
             app = t[1]
         cur = ids_now.setdefault(app, set())
-        if t[0] in ("store", "store-as", "dup", "store-id") and out.startswith("id "):
+        if t[0] in ("store", "store-w", "store-as", "dup", "store-id") and out.startswith("id "):
             cur.add(int(out.split()[1]))
         m = re.fullmatch(r"exec (u\d) \(inst (\d+) \(\(w 6b 01\)( \(attr i 1\))?\) - (l\d+) (~|u\d) ~\)", op)
         if m and int(m.group(2)) in cur and out == "err":
